@@ -5,6 +5,7 @@ import XonshVerif.Model.Wire
 import XonshVerif.Model.ProcArgs
 import XonshVerif.Model.DriverPeg
 import XonshVerif.Model.DriverTok
+import XonshVerif.Model.DriverMisc
 namespace XV.Driver
 open XV XV.Wire
 
@@ -33,6 +34,10 @@ def handle (line : String) : String :=
   | "procargs" :: rest => " ".intercalate ((procArgs (readPieces rest)).map encArg)
   | "parse" :: rest => handleParse rest
   | "tok" :: rest => handleTok rest
+  | "macro" :: rest => handleMacro rest
+  | "makeargs" :: rest => handleMakeArgs rest
+  | "builderr" :: rest => handleBuildErr rest
+  | "pipeline" :: rest => handlePipeline rest
   | "ping" :: _ => "pong"
   | _ => "bad-request"
 
